@@ -86,9 +86,9 @@ def run(prop, tier, seed):
         states += st2
         trans += tr2
         # 2. data races: the same kind of programs, and ordinary multi-bar programs, under the race detector
-        n_race = (150, 60, 40) if tier == "quick" else (2500, 1000, 600)
+        n_race = (150, 60, 40, 50) if tier == "quick" else (2500, 1000, 600, 800)
         rbin = core.build_harness(wd, race=True)
-        rscs = gen.batch(seed + 1, [("lin", n_race[0]), ("base@free", n_race[1]), ("pop@free", n_race[2])])
+        rscs = gen.batch(seed + 1, [("lin", n_race[0]), ("base@free", n_race[1]), ("pop@free", n_race[2]), ("queue@free", n_race[3])])
         rtraces = core.run_scenarios(rbin, wd, rscs, chunk=20, timeout=2400)
         rbad, st3, tr3, nev3 = core.run_obs(rtraces, wd)
         states += st3
